@@ -440,7 +440,23 @@ var rdCorpus = []string{
 	"https://[::1]/", "https://[::1]:8443/x", "http://[::1", "http://[::1]x", "https://.good.com/", "https://*.good.com/", "https://good.com./", "https://good.com:/x",
 	"https://good.com:08443/", "https://good.com:8443:8443/", "https://a:b:80/", "https://0x7f.1/", "https://good.com /", "https://good.com\t/", "https://good.com/\t",
 	"https://good.com/#\t", "http://good.com/%zz", "http://good.com/#%zz", "https://user:pw@good.com/", "https://us%er@good.com/", "https://us er@good.com/",
+	"/#/../\\evil.com/login", "/a#/../../\\evil.com", "/#/..//evil.com", "/a?x#/../..//evil.com", "/a;/../\\evil.com", "/#/../\t/evil.com",
 	"/oauth2/callback", "/oauth2/sign_in", "/oauth2", "/oauth2x", "/\xc2\xa0/evil.com", "/\xe2\x80\xa8/evil.com", "/\xe9", "/a\xff/../b", "/x/../../y", "a/b/../c", "../x", "./x", "x//y/",
+}
+
+// rdHidden: dot segments placed where one of the three parsers involved (the validator, http.Redirect's
+// split-at-'?' + path.Clean, the browser) might not look: behind '#', '?', ';', their percent-encodings, or a
+// matrix-parameter, followed by a host introduced with '/', '\\' or slash-whitespace-slash
+func rdHidden(f func(string)) {
+	for _, pre := range []string{"/", "/a", "/a/b", "/a/"} {
+		for _, sep := range []string{"#", "?", ";", "%23", "%3f", "#?", "?#", "#a", ";a=b", "#/", "?/"} {
+			for _, up := range []string{"/..", "/../..", "/./..", "/..;x", "/%2e%2e", "/.%2e", "..", "/..\\.."} {
+				for _, host := range []string{"/\\evil.com", "//evil.com", "/\t/evil.com", "\\\\evil.com", "/\\/evil.com", "/ /evil.com", "/evil.com", "\\evil.com/x"} {
+					f(pre + sep + up + host)
+				}
+			}
+		}
+	}
 }
 
 func rdEnum(tokens []string, n int, f func(string)) {
@@ -635,6 +651,7 @@ func init() {
 			c.count("corpus")
 			doStr(s)
 		}
+		rdHidden(func(s string) { doStr(s); c.count("gen:hidden-dot-segments") })
 		rdEnum(rdTokens, 4, func(s string) { doStr(s) })
 		c.count("exhaustive:tokens<=4")
 		for _, pre := range []string{"http://", "https://"} {
